@@ -792,6 +792,19 @@ func foldSemantics(fn *ssa.Function, member string) (sem foldSem, ok bool) {
 					continue
 				}
 				inLoop := len(p) > 1 && loop[p[1]]
+				// leaving through the loop condition — possibly a compound one (`for i := 0; acc && i < n; i++`):
+				// every loop block on the path only evaluates the condition, i.e. dominates the member call
+				if inLoop && !p.Contains(call.Block()) && isRet[last] {
+					condOnly := true
+					for _, b := range p[:len(p)-1] {
+						if loop[b] && !(b.Dominates(call.Block()) && b != call.Block()) {
+							condOnly = false
+						}
+					}
+					if condOnly {
+						inLoop = false
+					}
+				}
 				if !inLoop {
 					// the loop ran out
 					if isRet[last] {
@@ -836,6 +849,14 @@ func foldSemantics(fn *ssa.Function, member string) (sem foldSem, ok bool) {
 			if len(outs) == 1 {
 				for o := range outs {
 					cell.out = o
+				}
+			}
+			// with this accumulator value the loop condition lets no further iteration start: the
+			// fold ends here with the value the loop's exit yields
+			if len(outs) == 0 {
+				if ev, has := sem.exit[old]; has && ev != "?" {
+					cell.out = "ret:" + ev
+					cell.consulted = false
 				}
 			}
 			sem.cells[[2]bool{old, mv}] = cell
